@@ -25,7 +25,7 @@ template <class G> struct C07 {
       std::string key = "i=" + std::to_string(i);
       ref::Mat E = g.gen(i);
       ref::Mat Gm = vf::toLM(T::Generator(i));
-      bool ok = Gm.rows() == E.rows() && Gm.cols() == E.cols() && (Gm - E).cwiseAbs().maxCoeff() == 0;
+      bool ok = Gm.rows() == E.rows() && Gm.cols() == E.cols() && vf::maxabs((Gm - E)) == 0;
       fail_if(!ok, "generator_is_documented_basis", key, ok ? 0 : 1, 0.5, "{" + vf::kv("manif", vf::decmat(Gm)) + "," + vf::kv("documented", vf::decmat(E)) + "}");
       T t = T::Zero();
       ref::Mat Gm2 = vf::toLM(t.generator(i));
@@ -63,7 +63,7 @@ template <class G> struct C07 {
     std::string dt = "{" + vf::kv("t", vf::hexvec(t.coeffs())) + "}";
     typename T::LieAlg H = t.hat();
     ref::Mat Hl = vf::toLM(H), Hr = g.hat(tl);
-    fail_if(!(Hl - Hr).isZero(0), "hat_is_sum_ti_Gi", a.key, (Hl - Hr).cwiseAbs().maxCoeff(), 1e-300L, dt);
+    fail_if(!(Hl - Hr).isZero(0), "hat_is_sum_ti_Gi", a.key, vf::maxabs((Hl - Hr)), 1e-300L, dt);
     T back = T::Vee(H);
     fail_if(!vf::bits_equal(back.coeffs(), t.coeffs()), "vee_hat_is_identity", a.key, 0, 0.5, dt);
     T sv; sv.setVee(H);
@@ -71,7 +71,7 @@ template <class G> struct C07 {
     // hat(alpha t) = alpha hat(t)
     S alpha = S(-2.5);
     T st = t * alpha;
-    ref::Real d = (vf::toLM(st.hat()) - (ref::Real)alpha * Hl).cwiseAbs().maxCoeff() / a.lin;
+    ref::Real d = vf::maxabs((vf::toLM(st.hat()) - (ref::Real)alpha * Hl)) / a.lin;
     fail_if(false, "hat_homogeneous", a.key, d, B::B1, dt);
     // norms
     ref::Real n2 = (ref::Real)t.squaredWeightedNorm(), n = (ref::Real)t.weightedNorm(), in = (ref::Real)t.inner(t);
@@ -98,7 +98,7 @@ template <class G> struct C07 {
     T br = T::Bracket(ta, tb);
     ref::Real d = g.difft(vf::toL(br.coeffs()), c, L);
     fail_if(false, "bracket_is_commutator", key, d, B::B1, dd + "," + vf::kv("bracket", vf::decvec(br.coeffs())) + "," + vf::kv("ref", vf::decvec(c)) + "}");
-    d = (vf::toLM(br.hat()) - C).cwiseAbs().maxCoeff() / L;
+    d = vf::maxabs((vf::toLM(br.hat()) - C)) / L;
     fail_if(false, "bracket_hat_is_commutator_matrix", key, d, B::B1, dd + "}");
     T mb = ta.bracket(tb);
     fail_if(!vf::bits_equal(mb.coeffs(), br.coeffs()), "bracket_member_alias", key, 0, 0.5, dd + "}");
@@ -107,7 +107,7 @@ template <class G> struct C07 {
     fail_if(false, "bracket_antisymmetric", key, d, B::B1, dd + "}");
     // linearity of hat
     T sum = ta + tb;
-    d = (vf::toLM(sum.hat()) - (vf::toLM(ta.hat()) + vf::toLM(tb.hat()))).cwiseAbs().maxCoeff() / std::max(a.lin, b.lin);
+    d = vf::maxabs((vf::toLM(sum.hat()) - (vf::toLM(ta.hat()) + vf::toLM(tb.hat())))) / std::max(a.lin, b.lin);
     fail_if(false, "hat_additive", key, d, B::B1, dd + "}");
     // inner product
     ref::Real in = (ref::Real)ta.inner(tb), fro = (A.array() * Bm.array()).sum();
